@@ -973,3 +973,34 @@ theorem can_stop {c : Cfg} (hc : c.proto = .fixed) {n : Nat} :
       · exact h0 l' e
 
 end Proofs.Listener
+
+namespace Proofs.Listener
+
+theorem seenBy_append (k : Nat) (a b : List (Nat × Ind)) : seenBy k (a ++ b) = seenBy k a ++ seenBy k b := by
+  simp [seenBy]
+
+theorem seenBy_calls (k m : Nat) (y : Ind) : seenBy k (calls m y) = if k < m then [y] else [] := by
+  induction m with
+  | zero => simp [seenBy, calls]
+  | succ m ih =>
+    rw [calls_succ, seenBy_append, ih]
+    by_cases h1 : k < m
+    · have : ¬ (m = k) := by omega
+      have h2 : k < m + 1 := by omega
+      simp [seenBy, h1, h2, this]
+    · by_cases h2 : k = m
+      · subst h2; simp [seenBy]
+      · have h3 : ¬ k < m + 1 := by omega
+        have : ¬ (m = k) := fun e => h2 e.symm
+        simp [seenBy, h1, h3, this]
+
+theorem seenBy_expand (k n : Nat) (d : List Ind) : seenBy k (expand n d) = if k < n then d else [] := by
+  induction d with
+  | nil => simp [seenBy, expand]
+  | cons y ys ih =>
+    have : expand n (y :: ys) = calls n y ++ expand n ys := by simp [expand]
+    rw [this, seenBy_append, ih, seenBy_calls]
+    by_cases h : k < n <;> simp [h]
+
+
+end Proofs.Listener
